@@ -710,3 +710,193 @@ def c12(rec):
             continue
         out.append(_eval_check(r, exp, "C12", what, need_output=True))
     return out
+
+
+# ---------------------------------------------------------------------------
+# C13: Gaussian marginals, normalisers, integrals
+
+def _cv(val):
+    """q + (k/2) log(2 pi) - 1/2 log p  ->  float"""
+    import math
+    from . import vals
+    return vals.scalar_to_float(val["q"]) + 0.5 * val["k"] * math.log(2 * math.pi) - 0.5 * math.log(vals.scalar_to_float(val["p"]))
+
+
+def c13(rec):
+    """C13: marginals over every subset of real inputs, in one and in two stages, the
+    log-normaliser and Integrate equal the closed forms TLC computed from the dense
+    precision / information vector / constant; full-rank cases must complete; a block that
+    carries too little information must raise or give a non-finite value."""
+    import itertools
+    from funsor import ops as fops
+    from funsor.integrate import Integrate
+    from funsor.terms import Variable
+    from . import vals
+    sig = "leaf%s red{%s}" % (rec["sig"]["leaf"], ",".join(sorted(rec["sig"]["red"])))
+    out = []
+    g = fbuild.Builder().build(rec["leaf"])
+    red = list(rec["red"])
+    batch = rec["batch"]
+    keep = rec["keep"]
+    bsizes = [d["dt"] for _, d in batch]
+    bpoints = list(itertools.product(*[range(s) for s in bsizes]))
+    kpoints = list(itertools.product(*[[vals.arr_to_np(p) for p in pts] for pts in rec["pts"]]))
+    all_ok = all(cell["ok"] for row in rec["marg"] for cell in row)
+
+    def V(msg, st="mismatch", det=None):
+        return _verdict("C13", st, msg, det, sig=sig)
+
+    def evaluate(r, bi, kp):
+        subs = {n: int(i) for (n, _), i in zip(batch, bi)}
+        for (n, d), v in zip(keep, kp):
+            subs[n] = Tensor(np.array(v, dtype=np.float64))
+        subs = {k: v for k, v in subs.items() if k in r.inputs}
+        e = r(**subs) if subs else r
+        if not isinstance(e, (Tensor, Number)) or e.inputs:
+            return None
+        return float(np.asarray(e.data))
+
+    def check_marginal(what, fn):
+        try:
+            r = fn()
+        except Exception as e:  # noqa
+            if all_ok:
+                out.append(V(what + "_incomplete_on_full_rank", det="%s: %s" % (type(e).__name__, str(e)[:100])))
+            else:
+                out.append(V(what + ":" + type(e).__name__, st="declined_error"))
+            return
+        bad = None
+        n = 0
+        for b_ix, bi in enumerate(bpoints):
+            for k_ix, kp in enumerate(kpoints):
+                cell = rec["marg"][b_ix][k_ix]
+                try:
+                    got = evaluate(r, bi, kp)
+                except Exception as e:  # noqa
+                    got = None
+                    if cell["ok"]:
+                        bad = (what + "_evaluation_failed", str(e)[:100])
+                if got is None:
+                    if cell["ok"] and bad is None:
+                        bad = (what + "_lazy_on_full_rank", type(r).__name__)
+                    continue
+                if cell["ok"]:
+                    want = _cv(cell["val"])
+                    n += 1
+                    if not vals.close(got, want):
+                        bad = (what + "_value", {"batch": list(bi), "point": [np.asarray(v).tolist() for v in kp],
+                                                 "got": got, "want": want})
+                else:
+                    if np.isfinite(got):
+                        bad = (what + "_finite_value_for_singular_block", {"batch": list(bi), "got": got})
+        if bad:
+            out.append(V(bad[0], det=bad[1]))
+        else:
+            out.append(V(None, st="agree"))
+
+    rv = frozenset(red)
+    check_marginal("reduce", lambda: g.reduce(fops.logaddexp, rv))
+    if len(red) > 1:
+        for first in red:
+            check_marginal("two_stage", lambda: g.reduce(fops.logaddexp, frozenset([first])).reduce(
+                fops.logaddexp, rv - {first}))
+    # everything about the full normaliser when all reals are reduced
+    if not keep:
+        for b_ix, bi in enumerate(bpoints):
+            full = rec["full"][b_ix]
+            if not full["ok"]:
+                continue
+            want = _cv(full["logz"])
+            try:
+                if type(g).__name__ != "Gaussian":      # compressed: a Gaussian plus a Tensor
+                    raise LookupError("not a bare Gaussian")
+                ln = g.log_normalizer
+                got = float(np.asarray(ln.data)[tuple(bi[list(ln.inputs).index(n)] for n in ln.inputs)]) if ln.inputs else float(ln.data)
+                if not vals.close(got, want):
+                    out.append(V("log_normalizer_value", det={"batch": list(bi), "got": got, "want": want}))
+                else:
+                    out.append(V(None, st="agree"))
+            except LookupError:
+                pass
+            except Exception as e:  # noqa
+                out.append(V("log_normalizer_incomplete", det="%s: %s" % (type(e).__name__, str(e)[:100])))
+            # Integrate(g, g, all reals) = Z * E_g[g]
+            try:
+                gb = g(**{n: int(i) for (n, _), i in zip(batch, bi)}) if batch else g
+                r = Integrate(gb, gb, rv)
+                if isinstance(r, (Tensor, Number)) and not r.inputs:
+                    want_e = float(np.exp(want)) * vals.scalar_to_float(full["equad"])
+                    if not vals.close(float(np.asarray(r.data)), want_e):
+                        out.append(V("integrate_gaussian_value", det={"batch": list(bi), "got": float(np.asarray(r.data)), "want": want_e}))
+                    else:
+                        out.append(V(None, st="agree"))
+                else:
+                    out.append(V("integrate:lazy", st="declined_lazy"))
+            except Exception as e:  # noqa
+                out.append(V("integrate:" + type(e).__name__, st="declined_error"))
+            # Integrate(g, x, all reals) = Z * mean_x  for each real input x
+            off = 0
+            for n, d in rec["leaf"]["ins"]:
+                if d["dt"] != 0:
+                    continue
+                size = int(np.prod(d["sh"])) if d["sh"] else 1
+                want_m = np.array([vals.scalar_to_float(s) for s in full["mean"][off:off + size]]).reshape(tuple(d["sh"])) * float(np.exp(want))
+                off += size
+                try:
+                    gb = g(**{m: int(i) for (m, _), i in zip(batch, bi)}) if batch else g
+                    r = Integrate(gb, Variable(n, fbuild.dom_of(d)), rv)
+                    if isinstance(r, (Tensor, Number)) and not r.inputs:
+                        if not vals.close(np.asarray(r.data, dtype=float), want_m):
+                            out.append(V("integrate_variable_value", det={"var": n, "got": np.asarray(r.data).tolist(), "want": want_m.tolist()}))
+                        else:
+                            out.append(V(None, st="agree"))
+                    else:
+                        out.append(V("integrate_var:lazy", st="declined_lazy"))
+                except Exception as e:  # noqa
+                    out.append(V("integrate_var:" + type(e).__name__, st="declined_error"))
+    # mixture: reduce the integer inputs together with the real block; TLC gives the
+    # per-component marginals, the harness only takes their log-sum-exp
+    if batch and all_ok:
+        names = frozenset(red) | frozenset(n for n, _ in batch)
+        try:
+            r = g.reduce(fops.logaddexp, names)
+            bad = None
+            for k_ix, kp in enumerate(kpoints):
+                comps = np.array([_cv(rec["marg"][b_ix][k_ix]["val"]) for b_ix in range(len(bpoints))])
+                want = float(np.logaddexp.reduce(comps))
+                got = evaluate(r, (), kp) if True else None
+                if got is None:
+                    bad = ("mixture_lazy_on_full_rank", type(r).__name__)
+                elif not vals.close(got, want):
+                    bad = ("mixture_value", {"point": [np.asarray(v).tolist() for v in kp], "got": got, "want": want})
+            out.append(V(bad[0], det=bad[1]) if bad else V(None, st="agree"))
+        except Exception as e:  # noqa
+            out.append(V("mixture_incomplete_on_full_rank", det="%s: %s" % (type(e).__name__, str(e)[:100])))
+    # the same Gaussian built from the other parametrisations (exact integer P, eta from TLC)
+    if not keep and all(f["ok"] for f in rec["full"]):
+        from funsor.gaussian import Gaussian
+        from collections import OrderedDict
+        dim = len(rec["full"][0]["eta"])
+        bshape = tuple(bsizes)
+        P = np.array([[[vals.scalar_to_float(x) for x in row] for row in f["P"]] for f in rec["full"]]).reshape(bshape + (dim, dim))
+        eta = np.array([[vals.scalar_to_float(x) for x in f["eta"]] for f in rec["full"]]).reshape(bshape + (dim,))
+        mean = np.array([[vals.scalar_to_float(x) for x in f["mean"]] for f in rec["full"]]).reshape(bshape + (dim,))
+        cov = np.array([[[vals.scalar_to_float(x) for x in row] for row in f["cov"]] for f in rec["full"]]).reshape(bshape + (dim, dim))
+        ins = OrderedDict((n, fbuild.dom_of(d)) for n, d in rec["leaf"]["ins"])
+        forms = {"info_vec+precision": dict(info_vec=eta, precision=P), "mean+precision": dict(mean=mean, precision=P),
+                 "mean+covariance": dict(mean=mean, covariance=cov), "info_vec+covariance": dict(info_vec=eta, covariance=cov),
+                 "mean+scale_tril": dict(mean=mean, scale_tril=np.linalg.cholesky(cov))}
+        for fname, kw in forms.items():
+            try:
+                h = Gaussian(inputs=ins, **kw)
+                r = h.reduce(fops.logaddexp, rv)
+                bad = None
+                for b_ix, bi in enumerate(bpoints):
+                    want = _cv(rec["full"][b_ix]["logz"]) - vals.scalar_to_float(rec["full"][b_ix]["c0"])
+                    got = evaluate(r, bi, ())
+                    if got is None or not vals.close(got, want):
+                        bad = ("parametrisation_%s_value" % fname, {"batch": list(bi), "got": got, "want": want})
+                out.append(V(bad[0], det=bad[1]) if bad else V(None, st="agree"))
+            except Exception as e:  # noqa
+                out.append(V("parametrisation_%s:%s" % (fname, type(e).__name__), st="declined_error", det=str(e)[:80]))
+    return out
